@@ -103,6 +103,14 @@ def build_pool(seed: int, tier: str):
     add("empty-block-argument-first", ".macro m_wrap(p_blk) {\n{{p_blk}}\n.db 0x77\nlb_w:\n}\n*=0x038000\nm_wrap({\n})\nm_wrap({\n.db 1\n})\n", "low", entries=("mem", "file_sfc"))
     add("empty-constructs", "*=0x008000\n.macro m_hook() {\n}\n.db 0x11\nm_hook()\n{\n}\n.scope sc_n {\n}\n.if 1 {\n}\n.if 0 {\n.db 9\n} else {\n}\n.for i_e := 0, 2 {\n}\nm_hook()\n.db 0x22\nlb_end:\n.dl lb_end\n",
         "low", entries=all_entries, probes=["lb_end"])
+    # more ways to fail: their messages are results too
+    add("fail-unknown-keyword", "*=0x008000\n.dbx 1, 2\n", "low", entries=("mem", "cli"))
+    add("fail-upper-case-keyword", "*=0x008000\n.DW 0x1234\n", "low", entries=("mem", "file_ips"))
+    add("fail-bad-suffix", "*=0x008000\nlda.q 5\n", "low", entries=("mem", "cli"))
+    add("fail-bad-index", "*=0x008000\nlda 5,q\n", "low", entries=("mem",))
+    add("fail-unknown-mnemonic", "*=0x008000\nxyz 5\n", "low", entries=("mem", "file_sfc"))
+    add("fail-unsupported-mode", "*=0x008000\nnop #0\n", "low", entries=("mem", "cli"))
+    add("fail-too-few-arguments", "*=0x008000\n.macro m_two(p_1, p_2) {\n.db p_1, p_2\n}\nm_two(1)\n", "low", entries=("mem",))
     add("empty-source", "", "low", entries=("mem", "file_ips"))
     add("comment-only-source", "; just a comment\n/* and a block */\n", "low", entries=("mem", "cli"))
     for j, job in enumerate(jobs):
@@ -156,7 +164,9 @@ def run_case(case) -> Outcome:
     hist = [h for h in hist if 0 <= h < len(jobs)]
     if not hist:
         return Outcome(skip="empty history")
-    got = driver.fresh_process([_strip(jobs[h]) for h in hist], timeout=600)
+    # the history runs under another string-hash seed than the baselines (PYTHONHASHSEED 0): a result that depends on set /
+    # dict iteration order is not a function of the source, the files and the options
+    got = driver.fresh_process([_strip(jobs[h]) for h in hist], timeout=600, hashseed=str(1 + sum(hist) % 7))
     kinds = [jobs[h]["kind"] for h in hist]
     out = Outcome(evals=len(hist), labels=[])
     disturbing = False
